@@ -620,17 +620,19 @@ func (r *vrun) runGC(t gcTarget, writer string) {
 		res = 1
 	}
 	l := r.vlayout()
+	nseq := r.seq + 1 // ghost numbers of the entries GC wrote back: after everything acknowledged so far
 	if writer != "" && ran && wterm != "" {
-		r.emit(fmt.Sprintf("XGCW %d %d (%s) %d", t.bucket, t.fid, wterm, res), fmt.Sprintf("gc bucket=%d fid=%d with writer %q at the yield point -> err=%v", t.bucket, t.fid, wdesc, err))
+		r.emit(fmt.Sprintf("XGCW %d %d %d (%s) %d", t.bucket, t.fid, nseq, wterm, res), fmt.Sprintf("gc bucket=%d fid=%d with writer %q at the yield point -> err=%v", t.bucket, t.fid, wdesc, err))
 		r.races++
 	} else {
-		r.emit(fmt.Sprintf("XGC %d %d %d", t.bucket, t.fid, res), fmt.Sprintf("gc bucket=%d fid=%d -> err=%v", t.bucket, t.fid, err))
+		r.emit(fmt.Sprintf("XGC %d %d %d %d", t.bucket, t.fid, nseq, res), fmt.Sprintf("gc bucket=%d fid=%d -> err=%v", t.bucket, t.fid, err))
 	}
 	moved := 0
 	for _, recs := range r.newRecords(l) {
 		moved += len(recs)
 	}
 	r.resetSeen(l)
+	r.seq += uint64(moved)
 	r.gcs++
 	r.gcMoved += moved
 	r.c.CountN("gc_records_moved", moved)
